@@ -158,12 +158,16 @@ void SolutionWriterImpl<Solver, PB, Writer>::HandleSolution(
     auto kindO = mp::suf::Kind( suf::OBJ | suf::OUTPUT | suf::OUTONLY );
     builder_.AddIntSuffix("nsol", kindP, 0).
         SetValue(0, num_solutions_);
-    builder_.AddIntSuffix("nsol", kindO, 0).
-        SetValue(0, num_solutions_);
     builder_.AddIntSuffix("npool", kindP, 0).
         SetValue(0, num_solutions_);
-    builder_.AddIntSuffix("npool", kindO, 0).
-        SetValue(0, num_solutions_);
+    // Objective suffixes only if there is an objective to attach them to
+    // (a model without objectives has zero-length objective suffixes).
+    if (builder_.num_objs() > 0) {
+      builder_.AddIntSuffix("nsol", kindO, 0).
+          SetValue(0, num_solutions_);
+      builder_.AddIntSuffix("npool", kindO, 0).
+          SetValue(0, num_solutions_);
+    }
   }
   SolutionAdapter<PB> sol(
         status, &builder_, message.c_str(), options_,
